@@ -459,6 +459,14 @@ class ExprMixin:
                 else:
                     out.append(self.raise_(s2, 'IndexError', origin='L%d' % e.lineno))
             return out
+        if isinstance(o, SNode) and isinstance(key, SInt):
+            res = []
+            for s1, seq in self.as_iterable(st, o):
+                if isinstance(seq, Raised):
+                    res.append((s1, seq))
+                else:
+                    res.extend(self.getitem(s1, seq, key, e))
+            return res
         if isinstance(o, SDict) and o.concrete is not None:
             out = []
             rest = st
@@ -525,6 +533,7 @@ class ExprMixin:
     def comp_over(self, e, g, st, seq, fx, kind):
         if seq.concrete is not None:
             # unroll
+            st_locals0 = dict(st.locals)
             res = [(st, [])]
             for item in seq.concrete:
                 nxt = []
@@ -556,7 +565,13 @@ class ExprMixin:
                                 nxt.append((s3, acc))
                 res = nxt
             out = []
+            tnames = [nd.id for nd in ast.walk(g.target) if isinstance(nd, ast.Name)]
             for s, acc in res:
+                for tn in tnames:
+                    if tn in st_locals0:
+                        s.locals[tn] = st_locals0[tn]
+                    else:
+                        s.locals.pop(tn, None)
                 if isinstance(acc, Raised):
                     out.append((s, acc))
                 elif kind == 'set':
@@ -570,12 +585,15 @@ class ExprMixin:
     def symbolic_comp(self, e, g, st, seq, fx, kind):
         """[elt for x in seq (if c)] over a symbolic-length seq.
 
-        The element expression is executed once for a symbolic index k.  It must
-        have exactly one normal path (no heap effect); every exceptional path
-        becomes "the comprehension raises if some element raises" with a
-        skolem index.  A filter makes the result a monotone sub-list (embedding).
+        The element expression is executed once for a symbolic index k (no heap
+        effects allowed).  Path conditions are split into a k-independent part
+        (the outer state forks on it) and a k-dependent part (per-element
+        condition).  Exceptional element paths become "the comprehension raises
+        iff some element raises" (k is the skolem witness).  A filter makes the
+        result a monotone sub-list (embedding) of the base list.
         """
         k = self.W.fresh('ck', L.I)
+        cnt0 = self.W.counter
         s0 = st.fork()
         s0.assume(k >= 0, k < seq.length)
         nfacts0 = len(s0.facts)
@@ -602,82 +620,105 @@ class ExprMixin:
                         results.append((s4, v, True))
                 else:
                     results.append((s3, None, False))
-        normal = [(s, v, inc) for s, v, inc in results if not isinstance(v, Raised)]
-        raised = [(s, v) for s, v, inc in results if isinstance(v, Raised)]
-        out = []
-        # exceptional: there is an index whose evaluation raises (k is the skolem witness)
-        for s, v in raised:
-            s.locals = dict(saved_locals)
-            s.trace.append('comp-raise')
-            out.append((s, v))
-        if not normal:
-            return out
-        for s, v, inc in normal:
-            if s.heap.key != st.heap.key:
-                raise ToolLimit('comprehension element has heap effects')
-        # build the element function: conditions/values as functions of k by substitution
+
+        def mentions_k(t):
+            return _mentions(t, k)
+
         def subst(term, kk):
             return z3.substitute(term, (k, kk))
-        paths = []
-        for s, v, inc in normal:
+
+        groups = {}     # KI signature -> dict(ki=[facts], normal=[(kd, v, inc, s)], raised=[(kd, exc, s)])
+        for s, v, inc in results:
+            if not isinstance(v, Raised) and s.heap.key != st.heap.key:
+                raise ToolLimit('comprehension element has heap effects')
             extra = s.facts[nfacts0:]
-            cond = z3.And(*extra) if extra else z3.BoolVal(True)
-            paths.append((cond, v, inc, s))
-        sres = st.fork()
-        # no element raises: for all k none of the raising path conditions holds
-        kq = z3.Int('kq!%d' % self.W.counter)
-        for s, v in raised:
-            extra = s.facts[nfacts0:]
-            if extra:
-                body = z3.Implies(z3.And(kq >= 0, kq < seq.length), z3.Not(z3.And(*[subst(f, kq) for f in extra])))
-                sres.assume(z3.ForAll([kq], body))
+            ki = [f for f in extra if not mentions_k(f)]
+            kd = [f for f in extra if mentions_k(f)]
+            for f in kd:
+                if _has_fresh_after(f, cnt0):
+                    raise ToolLimit('comprehension element introduces per-element symbols (opaque call with k-dependent result)')
+            sig = tuple(sorted(f.sexpr() for f in ki if not z3.is_quantifier(f) and not _is_definition(f)))
+            gr = groups.setdefault(sig, {'ki': [], 'normal': [], 'raised': []})
+            for f in ki:
+                if not any(f.eq(x) for x in gr['ki']):
+                    gr['ki'].append(f)
+            if isinstance(v, Raised):
+                gr['raised'].append((kd, v, s))
             else:
-                # raising unconditionally for every element: only the empty list is fine
-                sres.assume(seq.length == 0)
-        objs_snapshot = None
-        includes = [p for p in paths if p[2]]
-        excludes = [p for p in paths if not p[2]]
-        if not includes:
-            out.append((sres, SList.of([])))
-            return out
+                gr['normal'].append((kd, v, inc, s))
+        out = []
+        for sig, gr in groups.items():
+            sg = st.fork()
+            sg.assume(*gr['ki'])
+            if len(groups) > 1:
+                sg.trace.append('comp%d' % (len(out)))
+                if not self.feasible(sg):
+                    continue
+            # some element raises
+            for kd, v, s in gr['raised']:
+                sr = sg.fork()
+                sr.assume(k >= 0, k < seq.length, *kd)
+                sr.trace.append('comp-raise')
+                if self.feasible(sr):
+                    out.append((sr, v))
+            if not gr['normal']:
+                sn = sg.fork()
+                sn.assume(seq.length == 0)
+                if self.feasible(sn):
+                    out.append((sn, SList.of([])))
+                continue
+            sres = sg
+            kq = z3.Int('kq!%d' % self.W.counter)
+            self.W.counter += 1
+            for kd, v, s in gr['raised']:
+                if kd:
+                    sres.assume(z3.ForAll([kq], z3.Implies(z3.And(kq >= 0, kq < seq.length),
+                                                           z3.Not(z3.And(*[subst(f, kq) for f in kd])))))
+                else:
+                    sres.assume(seq.length == 0)
+            paths = [((z3.And(*kd) if kd else z3.BoolVal(True)), v, inc, s) for kd, v, inc, s in gr['normal']]
+            includes = [p for p in paths if p[2]]
+            if not includes:
+                out.append((sres, SList.of([])))
+                continue
 
-        def elem_at(kk, includes=includes):
-            # value of the element expression at base index kk
-            if len(includes) == 1:
-                return self.subst_value(includes[0][1], k, kk, includes[0][3], sres)
-            v = self.subst_value(includes[-1][1], k, kk, includes[-1][3], sres)
-            for cond, val, inc, s in reversed(includes[:-1]):
-                v = SIte(subst(cond, kk), self.subst_value(val, k, kk, s, sres), v)
-            return v
+            def elem_at(kk, includes=includes, sres=sres):
+                if len(includes) == 1:
+                    return self.subst_value(includes[0][1], k, kk, includes[0][3], sres)
+                v = self.subst_value(includes[-1][1], k, kk, includes[-1][3], sres)
+                for cond, val, inc, s in reversed(includes[:-1]):
+                    v = SIte(subst(cond, kk), self.subst_value(val, k, kk, s, sres), v)
+                return v
 
-        if not g.ifs:
-            lst = SList(seq.length, elem_at, desc='comp over ' + seq.desc)
-            lst.base = seq
-        else:
-            incl = lambda kk: z3.Or(*[subst(c, kk) for c, _, _, _ in includes])
-            # monotone embedding (lenF, src, dst) -- the semantics of a filtered comprehension
-            lenF = self.W.fresh('flen', L.I)
-            src = self.W.fresh_fun('fsrc', L.I, L.I)
-            dst = self.W.fresh_fun('fdst', L.I, L.I)
-            j, j2 = z3.Int('j!f%d' % self.W.counter), z3.Int('j2!f%d' % self.W.counter)
-            sres.assume(lenF >= 0, lenF <= seq.length)
-            sres.assume(z3.ForAll([j], z3.Implies(z3.And(0 <= j, j < lenF),
-                                                 z3.And(0 <= src(j), src(j) < seq.length, incl(src(j)), dst(src(j)) == j)),
-                                  patterns=[src(j)]))
-            sres.assume(z3.ForAll([j], z3.Implies(z3.And(0 <= j, j < seq.length, incl(j)),
-                                                 z3.And(0 <= dst(j), dst(j) < lenF, src(dst(j)) == j)),
-                                  patterns=[dst(j)]))
-            sres.assume(z3.ForAll([j, j2], z3.Implies(z3.And(0 <= j, j < j2, j2 < lenF), src(j) < src(j2)),
-                                  patterns=[z3.MultiPattern(src(j), src(j2))]))
-            lst = SList(lenF, lambda kk: elem_at(src(kk)), desc='filtered comp over ' + seq.desc)
-            lst.base, lst.src, lst.dst, lst.incl = seq, src, dst, incl
-        if kind == 'set':
-            probe = lst.elem(z3.Int('probe'))
-            if not isinstance(probe, SStr):
-                raise ToolLimit('set comprehension of non-strings')
-            out.append((sres, SSet(lst, lambda v: v.t)))
-        else:
-            out.append((sres, lst))
+            if not g.ifs:
+                lst = SList(seq.length, elem_at, desc='comp over ' + seq.desc)
+                lst.base = seq
+            else:
+                incl = lambda kk, includes=includes: z3.Or(*[subst(c, kk) for c, _, _, _ in includes])
+                lenF = self.W.fresh('flen', L.I)
+                src = self.W.fresh_fun('fsrc', L.I, L.I)
+                dst = self.W.fresh_fun('fdst', L.I, L.I)
+                j, j2 = z3.Int('j!f%d' % self.W.counter), z3.Int('j2!f%d' % self.W.counter)
+                sres.assume(lenF >= 0, lenF <= seq.length)
+                sres.assume(z3.ForAll([j], z3.Implies(z3.And(0 <= j, j < lenF),
+                                                     z3.And(0 <= src(j), src(j) < seq.length, incl(src(j)), dst(src(j)) == j)),
+                                      patterns=[src(j)]))
+                sres.assume(z3.ForAll([j], z3.Implies(z3.And(0 <= j, j < seq.length, incl(j)),
+                                                     z3.And(0 <= dst(j), dst(j) < lenF, src(dst(j)) == j)),
+                                      patterns=[dst(j)]))
+                sres.assume(z3.ForAll([j, j2], z3.Implies(z3.And(0 <= j, j < j2, j2 < lenF), src(j) < src(j2)),
+                                      patterns=[z3.MultiPattern(src(j), src(j2))]))
+                lst = SList(lenF, lambda kk, elem_at=elem_at, src=src: elem_at(src(kk)), desc='filtered comp over ' + seq.desc)
+                lst.base, lst.src, lst.dst, lst.incl = seq, src, dst, incl
+            if kind == 'set':
+                probe = lst.elem(z3.Int('probe'))
+                if not isinstance(probe, SStr):
+                    raise ToolLimit('set comprehension of non-strings')
+                out.append((sres, SSet(lst, lambda v: v.t)))
+            else:
+                out.append((sres, lst))
+        for s, _ in out:
+            s.locals = dict(saved_locals)
         return out
 
     def subst_value(self, v, k, kk, s_from, s_to):
@@ -700,10 +741,11 @@ class ExprMixin:
             return STuple([self.subst_value(x, k, kk, s_from, s_to) for x in v.items])
         if isinstance(v, SObj):
             # copy the object (fields re-instantiated) into the result state
-            oid = s_to.new_obj(v.cls)
-            fields = s_from.objs[v.oid]
-            s_to.objs[oid] = {f: self.subst_value(x, k, kk, s_from, s_to) for f, x in fields.items()}
-            return SObj(v.cls, oid)
+            from .state import State
+            State._oid[0] += 1
+            fields = s_from.fields(v)
+            return SObj(v.cls, State._oid[0],
+                        init_fields={f: self.subst_value(x, k, kk, s_from, s_to) for f, x in fields.items()})
         if isinstance(v, SOpaque):
             r = SOpaque(sub(v.t), v.kind)
             if hasattr(v, 'isnone'):
@@ -731,3 +773,49 @@ class SDictAttrib(SV):
 
     def __init__(self, node):
         self.node = node
+
+
+
+def _mentions(t, k, _cache=None):
+    seen = set()
+    stack = [t]
+    kid = k.get_id()
+    while stack:
+        x = stack.pop()
+        i = x.get_id()
+        if i == kid:
+            return True
+        if i in seen:
+            continue
+        seen.add(i)
+        if z3.is_quantifier(x):
+            stack.append(x.body())
+        else:
+            stack.extend(x.children())
+    return False
+
+
+def _has_fresh_after(t, cnt0):
+    seen = set()
+    stack = [t]
+    while stack:
+        x = stack.pop()
+        i = x.get_id()
+        if i in seen:
+            continue
+        seen.add(i)
+        if z3.is_quantifier(x):
+            stack.append(x.body())
+            continue
+        if z3.is_app(x):
+            nm = x.decl().name()
+            if '!' in nm:
+                suf = nm.rsplit('!', 1)[1]
+                if suf.isdigit() and int(suf) > cnt0 and x.decl().kind() == z3.Z3_OP_UNINTERPRETED:
+                    return True
+            stack.extend(x.children())
+    return False
+
+
+def _is_definition(f):
+    return False
